@@ -5,4 +5,5 @@ MODULES = [
     'contracts.c_data',
     'contracts.c_print',
     'contracts.c_input',
+    'contracts.c_errors',
 ]
